@@ -8,8 +8,8 @@ rm -rf out/evidence.keep && cp -r evidence out/evidence.keep
 trap 'git -C /repo checkout -- . ; rm -rf evidence; mv out/evidence.keep evidence' EXIT
 for d in seeded/${only}*/; do
   id=$(basename $d); prop=$(python3 -c "import json;print(json.load(open('$d/meta.json'))['property'])")
-  git -C /repo apply --check $d/patch.diff 2>/dev/null || { echo "$id $prop PATCH-DOES-NOT-APPLY"; continue; }
-  git -C /repo apply $d/patch.diff
+  git -C /repo apply --check "$PWD/$d/patch.diff" 2>/dev/null || { echo "$id $prop PATCH-DOES-NOT-APPLY"; continue; }
+  git -C /repo apply "$PWD/$d/patch.diff"
   out=$(VERIF_BUDGET_S=$budget ./check.sh $prop quick 2>&1); rc=$?
   git -C /repo checkout -- .
   first=$(echo "$out" | grep '^violation' | head -1 | cut -c1-160)
